@@ -82,7 +82,7 @@ fn classes(s: &Stream) -> Vec<&'static str> {
     for d in &s.docs {
         let ns = &d.nodes;
         let root = &ns[1];
-        if root.k == "str" && (root.st == "lit" || root.st == "fold") && (root.cm > 0 || root.an == 1) && !out.contains(&"K1") {
+        if root.k == "str" && (root.st == "lit" || root.st == "fold") && (root.cm > 0 || root.s.contains(": ")) && !out.contains(&"K1") {
             out.push("K1");
         }
         if root.k == "map" && root.st == "block" {
